@@ -5,7 +5,9 @@ Confirms a seeded mutation produced by an independent agent (/tmp/mut-out/<prop>
 with it; then stores it as /verif/seeded/<prop>-m<k>/ (patch.diff, demo.py, notes.md, meta.json)."""
 import json, os, shutil, subprocess, sys
 prop, k, wt, caught_by, status = sys.argv[1:6]
-src = f'/tmp/mut-out/{prop}/m{k}'
+outroot = sys.argv[6] if len(sys.argv) > 6 else '/tmp/mut-out'
+tag = sys.argv[7] if len(sys.argv) > 7 else 'm'
+src = f'{outroot}/{prop}/m{k}'
 def sh(cmd, **kw):
     return subprocess.run(cmd, shell=True, capture_output=True, text=True, **kw)
 head = sh('git -C /repo rev-parse HEAD').stdout.strip()
@@ -22,14 +24,14 @@ ok = clean == 0 and mutated != 0 and base.returncode == 0
 print(prop, k, 'demo clean exit', clean, 'mutated exit', mutated, 'baseline:', base.stdout.strip().splitlines()[0] if base.stdout else base.stderr[-200:], 'CONFIRMED' if ok else 'NOT CONFIRMED')
 if not ok:
     sys.exit(1)
-dst = f'/verif/seeded/{prop}-m{k}'
+dst = f'/verif/seeded/{prop}-{tag}{k}'
 os.makedirs(dst, exist_ok=True)
 for f in ('patch.diff', 'demo.py', 'notes.md'):
     if os.path.exists(f'{src}/{f}'):
         shutil.copy(f'{src}/{f}', dst)
 notes = open(f'{src}/notes.md').read() if os.path.exists(f'{src}/notes.md') else ''
 meta = {
-    'property': prop, 'mutation': f'm{k}', 'repo_head_when_confirmed': head,
+    'property': prop, 'mutation': f'{tag}{k}', 'repo_head_when_confirmed': head,
     'breaks': notes[:1500],
     'confirmed': {'demo_exit_unmodified': clean, 'demo_exit_mutated': mutated, 'pinned_tests': base.stdout.strip().splitlines()[0]},
     'ran': [f'git apply patch.diff in a scratch worktree of /repo HEAD', 'demo.py before/after', 'python3 baseline_check.py <worktree> (1039 pinned tests)', f'FURAX_REPO=<worktree> ./check {caught_by} --tier quick'],
